@@ -48,7 +48,7 @@ def gen_workflow(r: Any, name: str, k0: int, async_flag: bool, reorder: bool = F
     # reorder: the calls keep their names and stored order but run in another order in some traces; the traces
     # then differ only in their links, never in the list of event types
     for t in range(n_traces):
-        jid = f"{name}-t{t}-{k0}"
+        jid = f"t{t}-{k0}-{name}"     # trace ids of different workflows interleave in sort order
         st = T0 + (k0 + t) * 10**7
         rid = f"{jid}.r"
         spans.append({"job_name": name, "job_id": jid, "event_type": f"{name[:1].upper()}A", "event_id": rid,
@@ -94,10 +94,14 @@ def gen_case(ctx: Ctx, k: int) -> dict[str, Any]:
     rerun = k % 8 == 3
     # names with spaces, capitals, dashes, and with characters that mean something to glob / regex when a path built
     # from the name is taken as a pattern ("ready?" next to "ready1", a bracket group)
-    pool = ["wf", "order flow", "Billing", "a b c", "x-1", "orders[eu]", "ready?", "ready1"]
+    pool = ["wf", "order flow", "Billing", "billing", "a b c", "x-1", "orders[eu]", "ready?", "ready1"]
     names = r.sample(pool, k=1 if (reorder or fanout) else r.choice([1, 2, 3]))
     if "ready?" in names and "ready1" not in names and not (reorder or fanout) and len(names) < 3:
         names.append("ready1")
+    # names that differ only in case come in pairs (two workflows of one service, one deployed capitalised)
+    for a, b in (("Billing", "billing"), ("billing", "Billing")):
+        if a in names and b not in names and not (reorder or fanout) and len(names) < 3:
+            names.append(b)
     async_flag = True if fanout else r.random() < 0.5
     spans: list[dict[str, Any]] = []
     for i, n in enumerate(names):
